@@ -11,12 +11,38 @@ ASSUMPTIONS = ["Scapy's dissection of well-framed packets is modelled as RFC 791
 NONTRIVIAL_FLOOR = 5000
 
 
+def scapy_walk_hits_short_ao(opts):
+    """Scapy 2.7.0's TCPOptionsField.m2i, re-walked: does it reach a TCP-AO option (kind 29) whose value is shorter than the two
+    bytes TCPAOValue needs?  (Its walk differs from pyp0f's: an announced length below 2 is taken as 2 and the walk goes on.)"""
+    x = opts
+    while x:
+        k = x[0]
+        if k == 0:
+            return False
+        if k == 1:
+            x = x[1:]
+            continue
+        ln = x[1] if len(x) > 1 else 0
+        if ln < 2:
+            ln = 2
+        val = x[2:ln]
+        if k == 29 and len(val) < 2:
+            return True
+        x = x[ln:]
+    return False
+
+
 def classify(f, known):
-    # F26: Scapy cannot dissect TCP when the options hold a TCP-AO option of length 3
+    # F26: Scapy cannot dissect the TCP layer when its option walk reaches a TCP-AO option with a value shorter than 2 bytes
     if f.op and f.impl == "ERR packet" and f.op.startswith(("wire", "printsig")):
-        raw = f.op.split("\t")[2]
-        if "1d03" in raw:
-            return "F26"
+        raw = bytes.fromhex(f.op.split("\t")[2])
+        ver = f.op.split("\t")[1]
+        off = (raw[0] & 15) * 4 if ver == "4" else 40
+        t = raw[off:]
+        if len(t) >= 20:
+            hl = (t[12] >> 4) * 4
+            if scapy_walk_hits_short_ao(t[20:hl]):
+                return "F26"
     return None
 
 
